@@ -20,25 +20,32 @@ Record cfg := mkcfg { dialT : N; writeT : N; readT : N; qcap : N; qmax : Z (* Ob
 (* rtimer.After(T): the wheel ticks every T/accuracy; the returned slot closes between T - T/accuracy and T *)
 Definition lo (T : N) : N := T - T / c_rtimer_accuracy.
 
-Inductive outcome := Reply (p : N) | Timeout | Error | Sent (* one-way: the request was queued *).
+Inductive outcome := Reply (p : N) | Timeout | Error | Sent (* one-way: the request was queued *)
+| Cancelled (* the caller cancelled its context while the call waited: the code returns its timeout error *).
 
 (* program counter of a caller inside TarsInvoke *)
 Inductive pc :=
 | Init      (* TarsInvoke entered, ctx derived *)
 | Pre       (* after manager.preInvoke: invokeNum+1 *)
-| Reg       (* after queueLen+1 and resp.Store(id, readCh); about to Send -> ReConnect -> connLock.Lock *)
+| Counted   (* after atomic.AddInt32(&queueLen, 1), before resp.Store *)
+| Reg       (* after resp.Store(id, readCh); about to Send -> ReConnect -> connLock.Lock *)
 | Dialing   (* holds connLock inside net.DialTimeout *)
 | Enq       (* ReConnect done; in the select { timer ; sendQueue <- msg } of TarsClient.Send *)
 | Waiting   (* in the select { ctx.Done ; readCh } of doInvoke *)
 | Done      (* outcome decided; deferred cleanup not yet run *)
-| Cleaned   (* queueLen-1, resp.Delete(id) done; before manager.postInvoke *)
+| Uncounted (* deferred cleanup: after atomic.AddInt32(&queueLen, -1), before resp.Delete *)
+| Cleaned   (* resp.Delete(id) done; before manager.postInvoke *)
 | Returned.
 
 Record call := mkcall {
+  k_px : nat (* the ServantProxy the call was made on: queueLen is that proxy's counter; several proxies for one object
+                share the endpoint manager (invokeNum) and its adapters (the pending-reply table, the connection) *);
   k_ow : bool (* one-way call *); k_start : N; k_dl : N; k_pc : pc; k_t0 : N (* begin of the current wait *);
   k_lockt : N (* ghost: when connLock was acquired *); k_d : bool (* ghost: this call dialled *);
   k_e : bool (* ghost: time passed while waiting to enqueue *);
-  k_out : option outcome; k_ret : N }.
+  k_out : option outcome; k_ret : N;
+  k_rel0 : N (* ghost: how many times connLock had been released by a dialling call when this call began to wait for it *);
+  k_w : N (* ghost: how many dials of other calls ended while this call waited for connLock *) }.
 
 (* a reply receiver goroutine: go protocol.Recv(pkg) *)
 Inductive rpc := RNew | RFound (j : nat) (* holds the channel of call j, blocked in the send/timer select *) | RDone.
@@ -46,29 +53,33 @@ Record rcv := mkrcv { r_id : N; r_pay : N; r_pc : rpc; r_t0 : N }.
 
 (* bookkeeping of transport.connection: idleTime, invokeNum (writes minus packets received; it is never reset), and
    two ghosts: when the current connection was established (phase of the sender's one-second ticker), how many were *)
-Record transp := mktr { idle_since : N; tinv : Z; conn_t : N; conns : N }.
+Record transp := mktr { idle_since : N; tinv : Z; conn_t : N; conns : N;
+  rels : N (* ghost: how often connLock has been released by a call that had dialled *) }.
 
 Record state := mkst {
   now : N; calls : list call; rcvs : list rcv;
-  queueLen : Z; invokeNum : Z; resp : list nat (* calls that have an entry in the pending-reply table *);
+  queueLen : nat -> Z (* per ServantProxy *); invokeNum : Z; resp : list nat (* calls that have an entry in the pending-reply table *);
   conn_open : bool; lock : option nat; sendq : list nat; wire : list nat (* ghost: requests written to the peer *);
   sent : list (N * N) (* ghost: packets the peer emitted *);
   tr : transp }.
 
-Definition init : state := mkst 0 [] [] 0%Z 0%Z [] false None [] [] [] (mktr 0 0%Z 0 0).
+Definition init : state := mkst 0 [] [] (fun _ => 0%Z) 0%Z [] false None [] [] [] (mktr 0 0%Z 0 0 0).
 
 (* the request id of call i is i+1 (ids of outstanding calls are distinct and non-zero: C08) *)
 Definition id_of (i : nat) : N := N.of_nat (S i).
 Definition call_of (id : N) : option nat := if id =? 0 then None else Some (pred (N.to_nat id)).
 
 Inductive label :=
-| Tick | Start (d : N) (ow : bool)
+| Tick | Start (d : N) (ow : bool) (px : nat)
 | LPre (i : nat) | LReg (i : nat) | LQueueFull (i : nat) | LLock (i : nat)
 | LDialOk (i : nat) | LDialFail (i : nat) | LDialTimeout (i : nat)
 | LEnq (i : nat) | LEnqTimeout (i : nat) | LCtxFire (i : nat) | LClean (i : nat) | LPost (i : nat)
 | LSendTake | LConnDown
 | LPeerPkt (id pay : N) | LLookup (r : nat) | LDeliver (r : nat) | LGiveUp (r : nat)
-| LIdleClose.
+| LIdleClose
+| LCancel (i : nat) | LFilterErr (i : nat)
+| LCount (i : nat) | LUncount (i : nat)
+| LCloseOld.
 
 Fixpoint upd {A} (l : list A) (i : nat) (x : A) : list A :=
   match l, i with
@@ -77,25 +88,28 @@ Fixpoint upd {A} (l : list A) (i : nat) (x : A) : list A :=
   | h :: t, S j => h :: upd t j x
   end.
 
+Definition fset (f : nat -> Z) (p : nat) (v : Z) : nat -> Z := fun q => if Nat.eqb q p then v else f q.
 Definition memb (i : nat) (l : list nat) : bool := existsb (Nat.eqb i) l.
 Definition remove_nat (i : nat) (l : list nat) : list nat := filter (fun j => negb (Nat.eqb i j)) l.
 
 Definition set_pc (k : call) (p : pc) : call :=
-  mkcall (k_ow k) (k_start k) (k_dl k) p (k_t0 k) (k_lockt k) (k_d k) (k_e k) (k_out k) (k_ret k).
+  mkcall (k_px k) (k_ow k) (k_start k) (k_dl k) p (k_t0 k) (k_lockt k) (k_d k) (k_e k) (k_out k) (k_ret k) (k_rel0 k) (k_w k).
 Definition set_wait (k : call) (p : pc) (t : N) : call :=
-  mkcall (k_ow k) (k_start k) (k_dl k) p t (k_lockt k) (k_d k) (k_e k) (k_out k) (k_ret k).
-Definition set_lock (k : call) (p : pc) (t : N) (d : bool) : call :=
-  mkcall (k_ow k) (k_start k) (k_dl k) p t t d (k_e k) (k_out k) (k_ret k).
+  mkcall (k_px k) (k_ow k) (k_start k) (k_dl k) p t (k_lockt k) (k_d k) (k_e k) (k_out k) (k_ret k) (k_rel0 k) (k_w k).
+Definition set_lock (k : call) (p : pc) (t : N) (d : bool) (w : N) : call :=
+  mkcall (k_px k) (k_ow k) (k_start k) (k_dl k) p t t d (k_e k) (k_out k) (k_ret k) (k_rel0 k) w.
+Definition set_reg (k : call) (r : N) : call :=
+  mkcall (k_px k) (k_ow k) (k_start k) (k_dl k) Reg (k_t0 k) (k_lockt k) (k_d k) (k_e k) (k_out k) (k_ret k) r (k_w k).
 Definition set_out (k : call) (o : outcome) (e : bool) : call :=
-  mkcall (k_ow k) (k_start k) (k_dl k) Done (k_t0 k) (k_lockt k) (k_d k) e (Some o) (k_ret k).
+  mkcall (k_px k) (k_ow k) (k_start k) (k_dl k) Done (k_t0 k) (k_lockt k) (k_d k) e (Some o) (k_ret k) (k_rel0 k) (k_w k).
 Definition set_full (k : call) : call :=
-  mkcall (k_ow k) (k_start k) (k_dl k) Cleaned (k_t0 k) (k_lockt k) (k_d k) (k_e k) (Some Error) (k_ret k).
+  mkcall (k_px k) (k_ow k) (k_start k) (k_dl k) Cleaned (k_t0 k) (k_lockt k) (k_d k) (k_e k) (Some Error) (k_ret k) (k_rel0 k) (k_w k).
 Definition set_enq (k : call) (e : bool) : call :=
   if k_ow k
-  then mkcall (k_ow k) (k_start k) (k_dl k) Done (k_t0 k) (k_lockt k) (k_d k) e (Some Sent) (k_ret k)   (* one-way: returns at once *)
-  else mkcall (k_ow k) (k_start k) (k_dl k) Waiting (k_t0 k) (k_lockt k) (k_d k) e (k_out k) (k_ret k).
+  then mkcall (k_px k) (k_ow k) (k_start k) (k_dl k) Done (k_t0 k) (k_lockt k) (k_d k) e (Some Sent) (k_ret k) (k_rel0 k) (k_w k)   (* one-way: returns at once *)
+  else mkcall (k_px k) (k_ow k) (k_start k) (k_dl k) Waiting (k_t0 k) (k_lockt k) (k_d k) e (k_out k) (k_ret k) (k_rel0 k) (k_w k).
 Definition set_ret (k : call) (t : N) : call :=
-  mkcall (k_ow k) (k_start k) (k_dl k) Returned (k_t0 k) (k_lockt k) (k_d k) (k_e k) (k_out k) t.
+  mkcall (k_px k) (k_ow k) (k_start k) (k_dl k) Returned (k_t0 k) (k_lockt k) (k_d k) (k_e k) (k_out k) t (k_rel0 k) (k_w k).
 
 Definition with_calls (s : state) (cs : list call) : state :=
   mkst (now s) cs (rcvs s) (queueLen s) (invokeNum s) (resp s) (conn_open s) (lock s) (sendq s) (wire s) (sent s) (tr s).
@@ -108,7 +122,7 @@ Definition is_waiting (s : state) (j : nat) : bool :=
 (* ---------- urgency: a goroutine has an enabled local action ---------- *)
 Definition call_urgent (c : cfg) (s : state) (k : call) : bool :=
   match k_pc k with
-  | Init | Pre | Done | Cleaned => true
+  | Init | Pre | Counted | Done | Uncounted | Cleaned => true
   | Reg => match lock s with None => true | Some _ => false end
   | Dialing => k_t0 k + dialT c <=? now s
   | Enq => (N.of_nat (length (sendq s)) <? qcap c) || ((0 <? writeT c) && (k_t0 k + writeT c <=? now s))
@@ -129,24 +143,23 @@ Definition step (c : cfg) (s : state) (l : label) : option state :=
   match l with
   | Tick => if urgent c s then None
             else Some (mkst (now s + 1) (calls s) (rcvs s) (queueLen s) (invokeNum s) (resp s) (conn_open s) (lock s) (sendq s) (wire s) (sent s) (tr s))
-  | Start d ow => Some (with_calls s (calls s ++ [mkcall ow (now s) (now s + d) Init (now s) (now s) false false None 0]))
+  | Start d ow px => Some (with_calls s (calls s ++ [mkcall px ow (now s) (now s + d) Init (now s) (now s) false false None 0 0 0]))
   | LPre i =>
       match nth_error (calls s) i with
       | Some k => match k_pc k with
                   | Init => Some (mkst (now s) (upd (calls s) i (set_pc k Pre)) (rcvs s) (queueLen s) (invokeNum s + 1)%Z (resp s) (conn_open s) (lock s) (sendq s) (wire s) (sent s) (tr s))
                   | _ => None end
       | None => None end
-  | LReg i =>
+  | LReg i =>   (* adp.resp.Store(id, readCh) *)
       match nth_error (calls s) i with
       | Some k => match k_pc k with
-                  | Pre => if (qmax c <? queueLen s)%Z then None
-                           else Some (mkst (now s) (upd (calls s) i (set_pc k Reg)) (rcvs s) (queueLen s + 1)%Z (invokeNum s) (i :: resp s) (conn_open s) (lock s) (sendq s) (wire s) (sent s) (tr s))
+                  | Counted => Some (mkst (now s) (upd (calls s) i (set_reg k (rels (tr s)))) (rcvs s) (queueLen s) (invokeNum s) (i :: resp s) (conn_open s) (lock s) (sendq s) (wire s) (sent s) (tr s))
                   | _ => None end
       | None => None end
   | LQueueFull i =>   (* "invoke queue is full": returns before anything is registered *)
       match nth_error (calls s) i with
       | Some k => match k_pc k with
-                  | Pre => if (qmax c <? queueLen s)%Z
+                  | Pre => if (qmax c <? queueLen s (k_px k))%Z
                            then Some (with_calls s (upd (calls s) i (set_full k)))
                            else None
                   | _ => None end
@@ -156,27 +169,27 @@ Definition step (c : cfg) (s : state) (l : label) : option state :=
       | Some k, None =>
           match k_pc k with
           | Reg => if conn_open s
-                   then Some (with_calls s (upd (calls s) i (set_lock k Enq (now s) false)))
-                   else Some (mkst (now s) (upd (calls s) i (set_lock k Dialing (now s) true)) (rcvs s) (queueLen s) (invokeNum s) (resp s) (conn_open s) (Some i) (sendq s) (wire s) (sent s) (tr s))
+                   then Some (with_calls s (upd (calls s) i (set_lock k Enq (now s) false (rels (tr s) - k_rel0 k))))
+                   else Some (mkst (now s) (upd (calls s) i (set_lock k Dialing (now s) true (rels (tr s) - k_rel0 k))) (rcvs s) (queueLen s) (invokeNum s) (resp s) (conn_open s) (Some i) (sendq s) (wire s) (sent s) (tr s))
           | _ => None end
       | _, _ => None end
   | LDialOk i =>
       match nth_error (calls s) i with
       | Some k => match k_pc k with
-                  | Dialing => Some (mkst (now s) (upd (calls s) i (set_wait k Enq (now s))) (rcvs s) (queueLen s) (invokeNum s) (resp s) true None (sendq s) (wire s) (sent s) (mktr (now s) (tinv (tr s)) (now s) (conns (tr s) + 1)))
+                  | Dialing => Some (mkst (now s) (upd (calls s) i (set_wait k Enq (now s))) (rcvs s) (queueLen s) (invokeNum s) (resp s) true None (sendq s) (wire s) (sent s) (mktr (now s) (tinv (tr s)) (now s) (conns (tr s) + 1) (rels (tr s) + 1)))
                   | _ => None end
       | None => None end
   | LDialFail i =>
       match nth_error (calls s) i with
       | Some k => match k_pc k with
-                  | Dialing => Some (mkst (now s) (upd (calls s) i (set_out k Error (k_e k))) (rcvs s) (queueLen s) (invokeNum s) (resp s) (conn_open s) None (sendq s) (wire s) (sent s) (tr s))
+                  | Dialing => Some (mkst (now s) (upd (calls s) i (set_out k Error (k_e k))) (rcvs s) (queueLen s) (invokeNum s) (resp s) (conn_open s) None (sendq s) (wire s) (sent s) (mktr (idle_since (tr s)) (tinv (tr s)) (conn_t (tr s)) (conns (tr s)) (rels (tr s) + 1)))
                   | _ => None end
       | None => None end
   | LDialTimeout i =>
       match nth_error (calls s) i with
       | Some k => match k_pc k with
                   | Dialing => if k_t0 k + dialT c <=? now s
-                               then Some (mkst (now s) (upd (calls s) i (set_out k Error (k_e k))) (rcvs s) (queueLen s) (invokeNum s) (resp s) (conn_open s) None (sendq s) (wire s) (sent s) (tr s))
+                               then Some (mkst (now s) (upd (calls s) i (set_out k Error (k_e k))) (rcvs s) (queueLen s) (invokeNum s) (resp s) (conn_open s) None (sendq s) (wire s) (sent s) (mktr (idle_since (tr s)) (tinv (tr s)) (conn_t (tr s)) (conns (tr s)) (rels (tr s) + 1)))
                                else None
                   | _ => None end
       | None => None end
@@ -202,10 +215,10 @@ Definition step (c : cfg) (s : state) (l : label) : option state :=
                   | Waiting => if k_dl k <=? now s then Some (with_calls s (upd (calls s) i (set_out k Timeout (k_e k)))) else None
                   | _ => None end
       | None => None end
-  | LClean i =>
+  | LClean i =>   (* deferred: adp.resp.Delete(id) *)
       match nth_error (calls s) i with
       | Some k => match k_pc k with
-                  | Done => Some (mkst (now s) (upd (calls s) i (set_pc k Cleaned)) (rcvs s) (queueLen s - 1)%Z (invokeNum s) (remove_nat i (resp s)) (conn_open s) (lock s) (sendq s) (wire s) (sent s) (tr s))
+                  | Uncounted => Some (mkst (now s) (upd (calls s) i (set_pc k Cleaned)) (rcvs s) (queueLen s) (invokeNum s) (remove_nat i (resp s)) (conn_open s) (lock s) (sendq s) (wire s) (sent s) (tr s))
                   | _ => None end
       | None => None end
   | LPost i =>
@@ -218,14 +231,16 @@ Definition step (c : cfg) (s : state) (l : label) : option state :=
       match sendq s with
       (* a sender goroutine takes the head of the queue and writes it; the goroutine of a lost connection may still be
          running (the connection flag is not consulted), whether the bytes reach the peer is the peer's business *)
-      | i :: q => Some (mkst (now s) (calls s) (rcvs s) (queueLen s) (invokeNum s) (resp s) (conn_open s) (lock s) q (i :: wire s) (sent s) (mktr (now s) (tinv (tr s) + 1)%Z (conn_t (tr s)) (conns (tr s))))
+      | i :: q => Some (mkst (now s) (calls s) (rcvs s) (queueLen s) (invokeNum s) (resp s) (conn_open s) (lock s) q (i :: wire s) (sent s) (mktr (now s) (tinv (tr s) + 1)%Z (conn_t (tr s)) (conns (tr s)) (rels (tr s))))
       | [] => None end
-  | LConnDown =>
-      if conn_open s
-      then Some (mkst (now s) (calls s) (rcvs s) (queueLen s) (invokeNum s) (resp s) false (lock s) (sendq s) (wire s) (sent s) (tr s))
-      else None
+  | LConnDown =>   (* connection.close(conn) of the current connection (peer closed it, protocol error, write error): under connLock *)
+      match lock s with
+      | None => if conn_open s
+                then Some (mkst (now s) (calls s) (rcvs s) (queueLen s) (invokeNum s) (resp s) false (lock s) (sendq s) (wire s) (sent s) (tr s))
+                else None
+      | Some _ => None end
   | LPeerPkt id pay =>
-      Some (mkst (now s) (calls s) (rcvs s ++ [mkrcv id pay RNew 0]) (queueLen s) (invokeNum s) (resp s) (conn_open s) (lock s) (sendq s) (wire s) ((id, pay) :: sent s) (mktr (idle_since (tr s)) (tinv (tr s) - 1)%Z (conn_t (tr s)) (conns (tr s))))
+      Some (mkst (now s) (calls s) (rcvs s ++ [mkrcv id pay RNew 0]) (queueLen s) (invokeNum s) (resp s) (conn_open s) (lock s) (sendq s) (wire s) ((id, pay) :: sent s) (mktr (idle_since (tr s)) (tinv (tr s) - 1)%Z (conn_t (tr s)) (conns (tr s)) (rels (tr s))))
   | LLookup r =>
       match nth_error (rcvs s) r with
       | Some x => match r_pc x with
@@ -265,6 +280,36 @@ Definition step (c : cfg) (s : state) (l : label) : option state :=
                 then Some (mkst (now s) (calls s) (rcvs s) (queueLen s) (invokeNum s) (resp s) false (lock s) (sendq s) (wire s) (sent s) (tr s))
                 else None
       | Some _ => None end
+  | LCancel i =>   (* ctx.Done() of a context the caller cancelled (at any time before): noticed at the wait *)
+      match nth_error (calls s) i with
+      | Some k => match k_pc k with
+                  | Waiting => Some (with_calls s (upd (calls s) i (set_out k Cancelled (k_e k))))
+                  | _ => None end
+      | None => None end
+  | LCloseOld =>   (* connection.close(conn) by a goroutine of an EARLIER connection (conn is not the current one any more):
+                      takes connLock and releases it again, the current connection and everything else stay as they are *)
+      match lock s with
+      | None => Some (mkst (now s) (calls s) (rcvs s) (queueLen s) (invokeNum s) (resp s) (conn_open s) (lock s) (sendq s) (wire s) (sent s) (tr s))
+      | Some _ => None end
+  | LCount i =>   (* the queue-limit check passed: atomic.AddInt32(&s.queueLen, 1) *)
+      match nth_error (calls s) i with
+      | Some k => match k_pc k with
+                  | Pre => if (qmax c <? queueLen s (k_px k))%Z then None
+                           else Some (mkst (now s) (upd (calls s) i (set_pc k Counted)) (rcvs s) (fset (queueLen s) (k_px k) (queueLen s (k_px k) + 1)%Z) (invokeNum s) (resp s) (conn_open s) (lock s) (sendq s) (wire s) (sent s) (tr s))
+                  | _ => None end
+      | None => None end
+  | LUncount i =>   (* deferred: atomic.AddInt32(&s.queueLen, -1) *)
+      match nth_error (calls s) i with
+      | Some k => match k_pc k with
+                  | Done => Some (mkst (now s) (upd (calls s) i (set_pc k Uncounted)) (rcvs s) (fset (queueLen s) (k_px k) (queueLen s (k_px k) - 1)%Z) (invokeNum s) (resp s) (conn_open s) (lock s) (sendq s) (wire s) (sent s) (tr s))
+                  | _ => None end
+      | None => None end
+  | LFilterErr i =>   (* a client filter returns an error without invoking: nothing is registered, postInvoke still runs *)
+      match nth_error (calls s) i with
+      | Some k => match k_pc k with
+                  | Pre => Some (with_calls s (upd (calls s) i (set_full k)))
+                  | _ => None end
+      | None => None end
   end.
 
 Fixpoint run (c : cfg) (s : state) (ls : list label) : option state :=
@@ -272,6 +317,17 @@ Fixpoint run (c : cfg) (s : state) (ls : list label) : option state :=
   | [] => Some s
   | l :: r => match step c s l with Some s' => run c s' r | None => None end
   end.
+
+(* ---------- the effective timeout of a call (TarsInvoke: "timeout delivery") ----------
+   timeout := proxy timeout; if the context carries a per-call timeout (current.SetClientTimeout) timeout := that one;
+   if the caller's context has a deadline, timeout := time.Until(deadline) and the context is used as it is; otherwise
+   context.WithTimeout(ctx, timeout) - with a timeout of zero or below the derived context has expired when it is made. *)
+Record tmo := mktmo {
+  t_proxy : Z (* ServantProxy.timeout, as set by TarsSetTimeout / the configuration *);
+  t_percall : option Z (* current.SetClientTimeout *);
+  t_ctx : option N (* time left until the deadline of the caller's context *) }.
+Definition configured (t : tmo) : Z := match t_percall t with Some p => p | None => t_proxy t end.
+Definition eff_of (t : tmo) : N := match t_ctx t with Some d => d | None => Z.to_N (configured t) end.
 
 (* ---------- canonical run of a fault script (used by the correspondence) ---------- *)
 Inductive connmode := CAccept | CRefuse | CStall | CAcceptClose | CNoRead
@@ -284,9 +340,12 @@ Definition early_pay : N := 3931302481.
 Record act := mkact { a_junk : bool; a_reply : option N; a_dup : bool; a_down : bool }.
 
 Record scen := mkscen {
-  sc_cfg : cfg; sc_conn : connmode; sc_acts : list act; sc_callers : nat; sc_calls : nat; sc_eff : N;
+  sc_cfg : cfg; sc_conn : connmode; sc_acts : list act; sc_callers : nat; sc_calls : nat; sc_tmo : tmo;
   sc_gaps : list N (* pause after the j-th call of a sequential caller; the last one repeats *);
   sc_oneway : bool;
+  sc_proxies : nat (* n > 0: the callers use n ServantProxy objects for the one object, call number i proxy i mod n *);
+  sc_cancel : option N (* the caller cancels its context this long after the start of the call *);
+  sc_reject : nat (* n > 0: the client filter rejects every call whose index is n-1 modulo n *);
   sc_prime : bool (* concurrent callers only: one call alone first, the callers start when it has returned *) }.
 
 (* scheduler state: packets the peer will emit (time, id, payload), connection losses to deliver *)
@@ -336,12 +395,16 @@ Definition want_start (sc : scen) (s : state) : bool :=
     end
   else false.
 
-Definition call_label (c : cfg) (s : state) (i : nat) (k : call) : label :=
+Definition call_label_r (rejected : bool) (c : cfg) (s : state) (i : nat) (k : call) : label :=
   match k_pc k with
-  | Init => LPre i | Pre => if (qmax c <? queueLen s)%Z then LQueueFull i else LReg i | Reg => LLock i | Dialing => LDialTimeout i
+  | Init => LPre i
+  | Pre => if rejected then LFilterErr i else if (qmax c <? queueLen s (k_px k))%Z then LQueueFull i else LCount i
+  | Counted => LReg i
+  | Reg => LLock i | Dialing => LDialTimeout i
   | Enq => if N.of_nat (length (sendq s)) <? qcap c then LEnq i else LEnqTimeout i
-  | Waiting => LCtxFire i | Done => LClean i | Cleaned => LPost i | Returned => Tick
+  | Waiting => LCtxFire i | Done => LUncount i | Uncounted => LClean i | Cleaned => LPost i | Returned => Tick
   end.
+Definition is_rejected (n i : nat) : bool := match n with O => false | S m => Nat.eqb (Nat.modulo i n) m end.
 Definition rcv_label (s : state) (r : nat) (x : rcv) : label :=
   match r_pc x with
   | RNew => LLookup r
@@ -362,7 +425,7 @@ Definition due (now : N) (p : N * N * N) : bool := let '(t, _, _) := p in t <=? 
 (* one scheduling decision: the label to take and the new scheduler state *)
 Definition sched (sc : scen) (s : state) (e : env) : label * env :=
   let c := sc_cfg sc in
-  if want_start sc s then (Start (sc_eff sc) (sc_oneway sc), e) else
+  if want_start sc s then (Start (eff_of (sc_tmo sc)) (sc_oneway sc) (match sc_proxies sc with O => O | S _ => Nat.modulo (length (calls s)) (sc_proxies sc) end), e) else
   match e_down e with
   | S n => (if conn_open s then LConnDown else LPeerPkt 0 0, mkenv (e_pend e) n)
   | O =>
@@ -372,6 +435,15 @@ Definition sched (sc : scen) (s : state) (e : env) : label * env :=
   | None =>
   match find_idx (rcv_urgent c s) (rcvs s) 0 with
   | Some (r, x) => (rcv_label s r x, e)
+  | None =>
+  (* the caller's own cancellation *)
+  let cancel_lbl : option label :=
+    match sc_cancel sc with
+    | Some cd => match find_idx (fun k => match k_pc k with Waiting => k_start k + cd <=? now s | _ => false end) (calls s) 0 with
+                 | Some (i, _) => Some (LCancel i) | None => None end
+    | None => None end in
+  match cancel_lbl with
+  | Some l => (l, e)
   | None =>
   (* the peer's side of connection establishment *)
   let dial_env : option (label * env) :=
@@ -401,10 +473,10 @@ Definition sched (sc : scen) (s : state) (e : env) : label * env :=
         let junk := if a_junk a then [(now s, 1000000 + id_of i, 0)] else [] in
         (LSendTake, mkenv (e_pend e ++ junk ++ rep) (if a_down a then 1 else 0))
       else
-        match find_idx (call_urgent c s) (calls s) 0 with Some (i, k) => (call_label c s i k, e) | None => (idle_or_tick c s, e) end
+        match find_idx (call_urgent c s) (calls s) 0 with Some (i, k) => (call_label_r (is_rejected (sc_reject sc) i) c s i k, e) | None => (idle_or_tick c s, e) end
   | [] =>
-      match find_idx (call_urgent c s) (calls s) 0 with Some (i, k) => (call_label c s i k, e) | None => (idle_or_tick c s, e) end
-  end end end end end.
+      match find_idx (call_urgent c s) (calls s) 0 with Some (i, k) => (call_label_r (is_rejected (sc_reject sc) i) c s i k, e) | None => (idle_or_tick c s, e) end
+  end end end end end end.
 
 Definition finished (sc : scen) (s : state) (e : env) : bool :=
   Nat.eqb (length (calls s)) (expected_calls sc)
@@ -429,7 +501,7 @@ Inductive ocls := OReply | OTimeout | OError | OSent | OOther.
 Definition ocls_eqb (a b : ocls) : bool :=
   match a, b with OReply, OReply | OTimeout, OTimeout | OError, OError | OSent, OSent | OOther, OOther => true | _, _ => false end.
 Definition cls_of (o : option outcome) : ocls :=
-  match o with Some (Reply _) => OReply | Some Timeout => OTimeout | Some Error => OError | Some Sent => OSent | None => OOther end.
+  match o with Some (Reply _) => OReply | Some Timeout => OTimeout | Some Error => OError | Some Sent => OSent | Some Cancelled => OTimeout | None => OOther end.
 
 Fixpoint insert_sorted (x : N) (l : list N) : list N :=
   match l with [] => [x] | y :: t => if x <=? y then x :: l else y :: insert_sorted x t end.
@@ -456,7 +528,7 @@ Definition of_cls {A} (cl : ocls) (l : list (ocls * A)) : list A :=
 Definition predicted (sc : scen) (obs : list (ocls * N)) : bool :=
   let '(s, _, ok) := canonical sc in
   let m := model_calls s in
-  ok && (queueLen s =? 0)%Z && (invokeNum s =? 0)%Z && match resp s with [] => true | _ => false end &&
+  ok && forallb (fun p => (queueLen s p =? 0)%Z) (seq 0 (S (sc_proxies sc))) && (invokeNum s =? 0)%Z && match resp s with [] => true | _ => false end &&
   if Nat.ltb 1 (sc_callers sc)
   then forallb (fun cl => times_agree (sort_n (of_cls cl m)) (sort_n (of_cls cl obs))) [OReply; OTimeout; OError; OSent; OOther]
   else list_eqb ocls_eqb (map fst m) (map fst obs) && times_agree (map snd m) (map snd obs).
@@ -538,18 +610,18 @@ Definition accepts (es : list event) : bool :=
   end.
 
 (* ---------- the model's own runs, seen through the same observation points ----------
-   pre-filter = just before doInvoke registers (LReg / LQueueFull), post-filter = after the deferred cleanup (LClean, or
+   pre-filter = just before doInvoke's first instruction (LCount / LQueueFull / LFilterErr), post-filter = after the deferred cleanup (LClean, or
    LQueueFull which has none), return = LPost with the counters as they are then, peer receive = the sender's write,
    peer send = LPeerPkt *)
 Definition events_of (s : state) (l : label) (s' : state) : list event :=
   match l with
-  | Start _ _ => [EStart (length (calls s))]
-  | LReg i => [EPre i (id_of i)]
-  | LQueueFull i => [EPre i (id_of i); EPost i]
+  | Start _ _ _ => [EStart (length (calls s))]
+  | LCount i => [EPre i (id_of i)]
+  | LQueueFull i | LFilterErr i => [EPre i (id_of i); EPost i]
   | LClean i => [EPost i]
   | LPost i => match nth_error (calls s') i with
                | Some k => [ERet i (cls_of (k_out k)) (match k_out k with Some (Reply p) => p | _ => 0 end)
-                              (Z.to_N (queueLen s')) (Z.to_N (invokeNum s')) (N.of_nat (length (resp s')))]
+                              (Z.to_N (queueLen s' (k_px k))) (Z.to_N (invokeNum s')) (N.of_nat (length (resp s')))]
                | None => [] end
   | LSendTake => match sendq s with i :: _ => [EPeerRecv (id_of i)] | [] => [] end
   | LPeerPkt id pay => [EPeerSend id pay]
@@ -580,13 +652,13 @@ Definition model_held (sc : scen) : N :=
 
 (* ---------- a correspondence case ---------- *)
 Record c09case := mkcase {
-  cc_cfg : cfg; cc_conn : connmode; cc_acts : list act; cc_callers : nat; cc_calls : nat; cc_eff : N; cc_gaps : list N;
-  cc_oneway : bool; cc_prime : bool; cc_predict : bool;
+  cc_cfg : cfg; cc_conn : connmode; cc_acts : list act; cc_callers : nat; cc_calls : nat; cc_tmo : tmo; cc_gaps : list N;
+  cc_oneway : bool; cc_proxies : nat; cc_cancel : option N; cc_reject : nat; cc_prime : bool; cc_predict : bool;
   cc_conns : option N (* connections the peer accepted, where the script makes that number definite (idle periods) *);
   cc_held : option N (* largest number of reply receivers seen blocked at once, when sampled *); cc_obs : list (ocls * N); cc_events : list event; cc_final : N * N * N }.
 
 Definition c09_check (x : c09case) : bool :=
-  let sc := mkscen (cc_cfg x) (cc_conn x) (cc_acts x) (cc_callers x) (cc_calls x) (cc_eff x) (cc_gaps x) (cc_oneway x) (cc_prime x) in
+  let sc := mkscen (cc_cfg x) (cc_conn x) (cc_acts x) (cc_callers x) (cc_calls x) (cc_tmo x) (cc_gaps x) (cc_oneway x) (cc_proxies x) (cc_cancel x) (cc_reject x) (cc_prime x) in
   (if cc_predict x then predicted sc (cc_obs x) && model_trace_ok sc &&
                         match cc_held x with Some h => model_held sc <=? h | None => true end &&
                         match cc_conns x with Some n => (let '(s, _, _) := canonical sc in conns (tr s)) =? n | None => true end
